@@ -669,6 +669,10 @@ func (x *Exec) strEq(a, b StrV) *Term {
 	x.hyps = append(x.hyps, c.Implies(c.And(c.Eq(ca, cb), c.Eq(a.Off, b.Off), c.Eq(a.Len, b.Len)), e))
 	x.hyps = append(x.hyps, c.Implies(c.And(c.Eq(a.Len, c.Int(0)), c.Eq(b.Len, c.Int(0))), e))
 	x.hyps = append(x.hyps, c.Eq(e, c.App("str_eq", SBool, cb, b.Off, b.Len, ca, a.Off, a.Len)))
+	// equal strings begin with the same byte; one-byte strings are equal when that byte is
+	fa, fb := c.Select(ca, a.Off), c.Select(cb, b.Off)
+	x.hyps = append(x.hyps, c.Implies(c.And(e, c.Le(c.Int(1), a.Len)), c.Eq(fa, fb)))
+	x.hyps = append(x.hyps, c.Implies(c.And(c.Eq(a.Len, c.Int(1)), c.Eq(b.Len, c.Int(1)), c.Eq(fa, fb)), e))
 	return e
 }
 
